@@ -127,6 +127,7 @@ def c01(run):
         trace_cache_runs(run, h, quick=(40, 4), focuses=("", "lazy"))
         if run.tier != "quick":
             sched_runs(run, h, ("cache", "cacheof"), "", ("NONLIN", "PREFILL"), quick=(200, 6))
+    race_premise(run)
     return R.finish(run, GAPS["C01"])
 
 
@@ -187,6 +188,7 @@ def c02(run):
         sched_runs(run, h, ("cache", "cacheof"), "lazy", ("NONLIN", "PREFILL"), quick=(200, 6))
         sched_runs(run, h, ("cache", "cacheof"), "ticks", ("NONLIN", "PREFILL"), quick=(200, 6))
         trace_cache_runs(run, h)
+    race_premise(run)
     return R.finish(run, GAPS.get("C02", []))
 
 
@@ -218,6 +220,7 @@ def c03(run):
     lh = with_harness(run, "layout")
     if usable and lh:
         seq_map_runs(run, lh, None, kinds=("map",), quick=(16, 300))
+    race_premise(run)
     return R.finish(run, GAPS.get("C03", []))
 
 
@@ -240,6 +243,7 @@ def c04(run):
     if kh:
         for sd in SEEDS(run, 3):
             R.native_run(run, "keys_s%d" % sd, [kh, "seed=%d" % sd, "nops=%d" % Q(run, 2000, 12000)], ["BAD", "PANIC", "panic:"])
+    race_premise(run)
     return R.finish(run, GAPS.get("C04", []))
 
 
@@ -281,6 +285,7 @@ def c05(run):
         seq_map_runs(run, lh, None, quick=(10, 300))
     if usable and ch:
         seq_cache_runs(run, ch, quick=(400, 40))
+    race_premise(run)
     return R.finish(run, GAPS.get("C05", []))
 
 
@@ -299,6 +304,7 @@ def c06(run):
         trace_cache_runs(run, h, quick=(40, 4))
     if ch:
         R.native_run(run, "janitor_callbacks", [ch, "janitor"], ["BAD", "panic:"])
+    race_premise(run)
     return R.finish(run, GAPS.get("C06", []))
 
 
@@ -313,6 +319,7 @@ def c07(run):
         seq_cache_runs(run, ch, quick=(400, 40))
     if usable and h:
         sched_runs(run, h, ALL_KINDS, "range", ("RANGE",), quick=(300, 6), lin=False)
+    race_premise(run)
     return R.finish(run, GAPS.get("C07", []))
 
 
@@ -331,7 +338,23 @@ def c08(run):
         sched_runs(run, h, ALL_KINDS, "range", ("SIZE", "COUNT", "CLEAR"), quick=(30, 6), lin=False)
         sched_runs(run, h, ALL_KINDS, "shrink", ("SIZE", "COUNT", "CLEAR"), quick=(40, 8), lin=False)
         trace_runs(run, h, ("map", "mapof"), quick=(40, 4))
+    race_premise(run)
     return R.finish(run, GAPS.get("C08", []))
+
+
+def race_premise(run):
+    """deeper tiers and escalated searches of the cache / table properties: the models read a stored value in one step;
+    that is only sound for data-race-free code, so a broken obligation is also looked for with the race detector
+    (GetWithExpiration / GetWithTTL racing writers that re-arm the same key, resizes, Range, settings)"""
+    if run.tier == "quick":
+        return
+    rh, err = R.build_race_harness(run)
+    run.oblige("go build -race -overlay of the harness from the working tree", rh is not None, err)
+    if rh:
+        env = dict(R.ENV, GORACE="halt_on_error=1 exitcode=66")
+        for sd in SEEDS(run, 2):
+            R.native_run(run, "race_s%d" % sd, [rh, "race", "seed=%d" % sd, "rounds=%d" % Q(run, 3, 8), "ms=%d" % Q(run, 350, 1000)],
+                         ["DATA RACE", "BAD", "panic:", "fatal error"], env=env, timeout=3000)
 
 
 def c09(run):
@@ -347,6 +370,7 @@ def c09(run):
         if run.tier != "quick":
             # deeper tiers: writers racing resizes as well (re-armed instants must survive a table copy)
             sched_runs(run, h, ("cache", "cacheof"), "", ("NONLIN", "PREFILL"), quick=(200, 6))
+    race_premise(run)
     return R.finish(run, GAPS.get("C09", []))
 
 
@@ -376,6 +400,7 @@ def c12(run):
         # both members of each pair must be linearizable against the same builtin-map / TTL semantics
         sched_runs(run, h, ("map", "mapof"), "racers", ("NONLIN", "FN", "PREFILL"), quick=(100, 6))
         sched_runs(run, h, ALL_KINDS, "", ("NONLIN", "PREFILL"), quick=(150, 6))
+    race_premise(run)
     return R.finish(run, GAPS.get("C12", []))
 
 
